@@ -1277,6 +1277,7 @@ impl<'a, 'b, W: Write> Serializer for &'a mut YamlSerializer<'b, W> {
 
     fn serialize_none(self) -> Result<()> {
         self.write_space_if_pending()?;
+        self.write_scalar_prefix_if_anchor()?;
         self.last_value_was_block = false;
         if self.at_line_start {
             self.write_indent(self.depth)?;
@@ -1292,6 +1293,7 @@ impl<'a, 'b, W: Write> Serializer for &'a mut YamlSerializer<'b, W> {
 
     fn serialize_unit(self) -> Result<()> {
         self.write_space_if_pending()?;
+        self.write_scalar_prefix_if_anchor()?;
         self.last_value_was_block = false;
         if self.at_line_start {
             self.write_indent(self.depth)?;
